@@ -691,11 +691,21 @@ Qed.
 
 (* ------------------------------------------------------------------ checker *)
 
+Lemma uniq_complete : forall l seen x, In x l -> ~ In x seen -> In x (uniq seen l).
+Proof.
+  induction l as [|y t IH]; intros seen x Hin Hns; [destruct Hin|]. cbn [uniq].
+  destruct (existsb (N.eqb y) seen) eqn:E.
+  - destruct Hin as [->|Hin]; [|apply IH; assumption].
+    exfalso. apply existsb_exists in E. destruct E as [z [Hz Ez]]. apply N.eqb_eq in Ez. subst z. auto.
+  - destruct (N.eq_dec y x) as [->|Hne]; [left; reflexivity|]. right.
+    destruct Hin as [E'|Hin]; [congruence|]. apply IH; [exact Hin|]. intros [E'|Hs]; [congruence|auto].
+Qed.
+
 Lemma same_sizesb_ok p p' : same_sizesb p p' = true <-> same_sizes p p'.
 Proof.
   unfold same_sizesb, same_sizes. rewrite forallb_forall. split.
   - intros H x. destruct (in_dec N.eq_dec x (p ++ p')) as [Hin|Hnin].
-    + apply Nat.eqb_eq. auto.
+    + apply Nat.eqb_eq. apply H. apply uniq_complete; [exact Hin|intros []].
     + rewrite !count_notin; auto; intros Hx; apply Hnin; apply in_or_app; auto.
   - intros H x _. apply Nat.eqb_eq. auto.
 Qed.
